@@ -24,6 +24,8 @@ extern "C"
     int __real_dlclose(void*);
     // symbol 3 lives in the program itself (for dl(nitro::dl::self)); exported through -rdynamic
     __attribute__((visibility("default"), used)) int vdl_self(int x) { return x + 900; }
+    // symbol 1 also exists in the program (a DIFFERENT function): a look-up through a library handle must find the library's
+    __attribute__((visibility("default"), used)) int vdl_g(int x) { return x + 7000; }
 }
 
 namespace
@@ -35,7 +37,7 @@ struct Tok
     int closes;
 };
 std::vector<Tok*> toks;
-int null_closes, use_after_close, double_closes;
+int null_closes, use_after_close, double_closes, null_dlsyms;
 
 std::string path_of(int f)
 {
@@ -70,6 +72,7 @@ extern "C"
     void* __wrap_dlsym(void* h, const char* name)
     {
         int id = tok_id(h);
+        if (h == nullptr) null_dlsyms++; // nitro never has a reason to search the global scope
         if (id < 0) return __real_dlsym(h, name); // RTLD_DEFAULT and friends
         if (toks[id]->closes > 0) { use_after_close++; return nullptr; }
         return __real_dlsym(toks[id]->real, name);
@@ -127,6 +130,7 @@ std::string state_obs(const std::vector<Slot>& sl)
     }
     std::string nc = "nc=" + std::to_string(null_closes);
     if (use_after_close) nc += "/dlsym-after-dlclose" + std::to_string(use_after_close);
+    if (null_dlsyms) nc += "/dlsym-of-NULL" + std::to_string(null_dlsyms);
     return join(hsv) + "|" + join(sv) + "|" + nc;
 }
 std::string sym_name(int s)
@@ -181,7 +185,7 @@ std::string run(int n, const std::string& opsw)
 {
     for (auto* t : toks) delete t;
     toks.clear();
-    null_closes = use_after_close = double_closes = 0;
+    null_closes = use_after_close = double_closes = null_dlsyms = 0;
     caught.clear();
     dlerror();
     std::string out;
@@ -221,11 +225,13 @@ std::string run(int n, const std::string& opsw)
                     }
                 }
             }
-            else if (f[0] == "sc" || f[0] == "sq")
+            else if (f[0] == "sc" || f[0] == "sq" || f[0] == "tc" || f[0] == "tq")
             {
+                // tc/tq: the same on a TEMPORARY:  nitro::dl::dl(path).load<T>(name)
+                const bool temporary = f[0][0] == 't';
                 // open + load with the dl object INSIDE the try block: a failed look-up unwinds through its destructor
                 // (dlclose) before the handler runs; on success the symbol outlives the scoped library object
-                const bool quiet = f[0] == "sq";
+                const bool quiet = f[0][1] == 'q';
                 std::size_t i = arg(1), t = arg(2);
                 int file = static_cast<int>(arg(3)), sy = static_cast<int>(arg(4));
                 if (valid(i) && valid(t) && i != t && sl[i].empty() && sl[t].empty())
@@ -244,10 +250,20 @@ std::string run(int n, const std::string& opsw)
                     dlerror();
                     try
                     {
-                        nitro::dl::dl lib = file == 2 ? nitro::dl::dl(nitro::dl::self) : nitro::dl::dl(path_of(file));
-                        int h = tok_id(lib.get().get());
-                        sl[i].sym.emplace(lib.load<int(int)>(sym_name(sy)));
-                        sl[i].h = h;
+                        if (temporary)
+                        {
+                            const int h = static_cast<int>(toks.size()); // the handle this open is about to create
+                            if (file == 2) sl[i].sym.emplace(nitro::dl::dl(nitro::dl::self).load<int(int)>(sym_name(sy)));
+                            else sl[i].sym.emplace(nitro::dl::dl(path_of(file)).load<int(int)>(sym_name(sy)));
+                            sl[i].h = h;
+                        }
+                        else
+                        {
+                            nitro::dl::dl lib = file == 2 ? nitro::dl::dl(nitro::dl::self) : nitro::dl::dl(path_of(file));
+                            int h = tok_id(lib.get().get());
+                            sl[i].sym.emplace(lib.load<int(int)>(sym_name(sy)));
+                            sl[i].h = h;
+                        }
                         r = "ok";
                     }
                     catch (const nitro::dl::exception& e)
@@ -261,9 +277,38 @@ std::string run(int n, const std::string& opsw)
                 std::size_t k = arg(1);
                 if (k < caught.size()) r = "diag:" + read_caught(caught[k]);
             }
-            else if (f[0] == "ld" || f[0] == "lq")
+            else if (f[0] == "lt")
             {
+                // load on a temporary COPY of the library object:  nitro::dl::dl(lib).load<T>(name)   (t: scratch slot of the model)
+                std::size_t i = arg(1), j = arg(2), t = arg(3);
+                int sy = static_cast<int>(arg(4));
+                if (valid(i) && valid(j) && valid(t) && i != t && sl[i].empty() && sl[t].empty() && sl[j].lib && sl[j].lib->get() != nullptr)
+                {
+                    int h = tok_id(sl[j].lib->get().get());
+                    std::string expected;
+                    if (h >= 0 && toks[h]->closes == 0)
+                    {
+                        dlerror();
+                        (void)__real_dlsym(toks[h]->real, sym_name(sy).c_str());
+                        expected = take_dlerror();
+                    }
+                    try
+                    {
+                        sl[i].sym.emplace(nitro::dl::dl(*sl[j].lib).load<int(int)>(sym_name(sy)));
+                        sl[i].h = h;
+                        r = "ok";
+                    }
+                    catch (const nitro::dl::exception& e)
+                    {
+                        r = on_caught(e, expected, sym_name(sy), false);
+                    }
+                }
+            }
+            else if (f[0] == "ld" || f[0] == "lq" || f[0] == "lm")
+            {
+                // ld/lq: load on a named lvalue;  lm: on std::move(named) — the library object must stay an owner
                 const bool quiet = f[0] == "lq";
+                const bool xvalue = f[0] == "lm";
                 std::size_t i = arg(1), j = arg(2);
                 int s = static_cast<int>(arg(3));
                 if (valid(i) && valid(j) && sl[i].empty() && sl[j].lib && sl[j].lib->get() != nullptr)
@@ -278,7 +323,8 @@ std::string run(int n, const std::string& opsw)
                     }
                     try
                     {
-                        sl[i].sym.emplace(sl[j].lib->load<int(int)>(sym_name(s)));
+                        if (xvalue) sl[i].sym.emplace(std::move(*sl[j].lib).load<int(int)>(sym_name(s)));
+                        else sl[i].sym.emplace(sl[j].lib->load<int(int)>(sym_name(s)));
                         sl[i].h = h;
                         r = "ok";
                     }
